@@ -374,6 +374,33 @@ class Sub(X):
         return self.idx.stringable() and parseable(self.arr)
 
 
+class Lst(X):
+    """a Python list / tuple of expressions handed to a call as one argument (objects only)."""
+    __slots__ = ("items", "as_tuple")
+
+    def __init__(self, items, as_tuple=False):
+        self.items, self.as_tuple = list(items), as_tuple
+
+    def s(self, nm):
+        inner = ", ".join(i.s(nm) for i in self.items)
+        return "(%s,)" % inner if self.as_tuple else "[%s]" % inner
+
+    def pym(self, nm):
+        out = [i.pym(nm) for i in self.items]
+        return tuple(out) if self.as_tuple else out
+
+    def ev(self, R, flat):
+        out = [i.ev(R, flat) for i in self.items]
+        return tuple(out) if self.as_tuple else out
+
+    def vars(self, acc):
+        for i in self.items:
+            i.vars(acc)
+
+    def stringable(self):
+        return False
+
+
 class Attr(X):
     """attribute lookup on a numeric variable: x.real / x.imag (the attribute name is no variable)."""
     __slots__ = ("name", "attr")
